@@ -506,6 +506,9 @@ MEMBER_TEMPLATES = {
     'field_value': ('parcelable', '«first:String»§«n:ff»§=§«last:"s"»§«semi:;»'),
     'field_map': ('parcelable', '«first:»«mt:Map»§<§«mk:String»§,§«arr:int»§[§«arrlast:]»§«mtend:>»§«n:ff»«last:»§«semi:;»'),
     'field_custom': ('parcelable', '«first:»«ct:a.b.Cc»§«n:ff»«last:»§«semi:;»'),
+    # array whose element type is generic / itself an array: the array's name range is its element type as written
+    'field_array_generic': ('parcelable', '«first:»«ag:List»§<§String§«agend:>»§[§«aglast:]»§«n:ff»«last:»§«semi:;»'),
+    'field_array_array': ('parcelable', '«first:»«aa:int»§[§«aaend:]»§[§«aalast:]»§«n:ff»«last:»§«semi:;»'),
     'enum_element': ('enum', '«first:»«n:EL»§=§«last:3»'),
 }
 
@@ -582,6 +585,14 @@ def sweep_c04():
                 chk('type', 'symbol_range', ft['generic'][1]['sym'], roles['arr'][0], roles['arr'][1])
                 chk('type', 'full_range', ft['generic'][1]['full'], roles['arr'][0], roles['arrlast'][1])
                 chk('type', 'symbol_range', ft['generic'][1]['generic'][0]['sym'], roles['arr'][0], roles['arr'][1])
+            if kind == 'field_array_generic':
+                chk('type', 'symbol_range', m['type']['sym'], roles['ag'][0], roles['agend'][1])
+                chk('type', 'full_range', m['type']['full'], roles['ag'][0], roles['aglast'][1])
+                chk('type', 'symbol_range', m['type']['generic'][0]['sym'], roles['ag'][0], roles['ag'][1])
+            if kind == 'field_array_array':
+                chk('type', 'symbol_range', m['type']['sym'], roles['aa'][0], roles['aaend'][1])
+                chk('type', 'full_range', m['type']['full'], roles['aa'][0], roles['aalast'][1])
+                chk('type', 'symbol_range', m['type']['generic'][0]['sym'], roles['aa'][0], roles['aa'][1])
             if kind == 'field_custom':
                 chk('type', 'symbol_range', m['type']['sym'], roles['ct'][0], roles['ct'][1])
                 chk('type', 'full_range', m['type']['full'], roles['ct'][0], roles['ct'][1])
@@ -730,7 +741,7 @@ def sweep_c06():
                 body = ''.join('  void m%d(in %s a);\n' % (j, u) for j, u in enumerate(uses))
                 files[fid] = 'package z;\n' + ''.join('import %s;\n' % i for i in imps) + 'interface I {\n' + body + '}\n'
                 metas[fid] = ('imports', imps, uses)
-    dec_pool = ['Fwd', 'Foo', 'a.b.Fwd', 'Other']
+    dec_pool = ['Fwd', 'Foo', 'a.b.Fwd', 'Other', 'x.y.Foo']       # x.y.Foo: qualified declaration whose simple name an import of another package carries
     for L in (1, 2):
         for decs in itertools.product(dec_pool, repeat=L):
             for withimp in (False, True):
